@@ -93,6 +93,24 @@ def global_state_names(pkg):
                             mutable = (f.attr if isinstance(f, ast.Attribute) else getattr(f, "id", "")) in _MUTABLE_CALLS
                         if mutable:
                             names.update("." + t.id for t in targets if not t.id.isupper())
+                    # ... and mutable containers that __init__ puts on the instance: shared as soon as an instance is
+                    # (Component.as_view() keeps ONE instance for all requests)
+                    for fn_ in node.body:
+                        if isinstance(fn_, ast.FunctionDef) and fn_.name == "__init__":
+                            for stmt in ast.walk(fn_):
+                                tgt, val = None, None
+                                if isinstance(stmt, ast.Assign) and len(stmt.targets) == 1:
+                                    tgt, val = stmt.targets[0], stmt.value
+                                elif isinstance(stmt, ast.AnnAssign) and stmt.value is not None:
+                                    tgt, val = stmt.target, stmt.value
+                                if not (isinstance(tgt, ast.Attribute) and isinstance(tgt.value, ast.Name) and tgt.value.id == "self"):
+                                    continue
+                                mutable = isinstance(val, (ast.List, ast.Dict, ast.Set))
+                                if isinstance(val, ast.Call):
+                                    f = val.func
+                                    mutable = (f.attr if isinstance(f, ast.Attribute) else getattr(f, "id", "")) in _MUTABLE_CALLS
+                                if mutable:
+                                    names.add("." + tgt.attr)
     return names - _NOISE
 
 
